@@ -15,6 +15,7 @@ RULES = {
     "R-14.1": "the ordered ctx.update() inputs of _digest equal the RFC 8945 4.3 composition under every valuation of (first, request MAC present); multi-message continuation starts with the length-prefixed prior MAC",
     "R-14.2": "validate digests the message with ARCOUNT-1 cut at the TSIG, performs error/time/key/algorithm checks before the MAC check, and every normal return is dominated by ctx.verify(rdata.mac); HMAC verify is a constant-time comparison of the (possibly truncated) digest",
     "R-14.3": "HMACTSig._hashes and mac_sizes agree (keys, hash function per algorithm name, digest or truncated size)",
+    "R-14.10": "a message with a key is signed every time it is rendered: `want_tsig_sign` is written only by the constructor and use_tsig(); rendering never clears it (a second to_wire() after the content changed, or after the fudge window, would re-emit the stale MAC and time)",
     "R-14.9": "the algorithm a signer writes into the TSIG record is the algorithm of the key that computes the MAC: Renderer.add_tsig / add_multi_tsig build the template with `key.algorithm` (a Key object of another algorithm than the `algorithm` argument would otherwise produce a message its own key rejects with BadAlgorithm)",
     "R-14.8": "the TSIG record is read exactly: the 48-bit time, the 16-bit fudge/sizes and the MAC come through the bounded, exact-width Parser reads (rule of C04 R-04.5, run here directly)",
     "R-14.7": "every field of the TSIG RR that the digest replaces by a constant is pinned by the reader: _digest packs TTL 0 (RFC 8945 4.2: the TTL MUST be 0), so the wire reader refuses a TSIG RR whose TTL is not 0 before it validates - otherwise 32 bits of the signed message can be altered without the MAC noticing",
@@ -340,6 +341,17 @@ def run(model, rep, tier):
         rep.check(okk, "R-14.7", gs7.qualname, where(gs7, vals[0].ast), "a TSIG RR with a non-zero TTL is refused before validation (the digest assumes 0)",
                   "_digest packs a constant 0 for the TSIG TTL, and nothing refuses a TSIG RR whose wire TTL is not 0 before dns.tsig.validate: flipping any of the 32 TTL bits of a signed "
                   "message still validates", stmt="tsig-ttl")
+    n_w10 = 0
+    for f10 in sorted(model.all_functions(), key=lambda g: g.qualname):
+        if not f10.module.name.startswith("dns."):
+            continue
+        for x in ast.walk(f10.node):
+            if isinstance(x, (ast.Assign, ast.AugAssign)) and any(isinstance(t_, ast.Attribute) and t_.attr == "want_tsig_sign" for t_ in (x.targets if isinstance(x, ast.Assign) else [x.target])):
+                n_w10 += 1
+                rep.check(f10.qualname in ("dns.message.Message.__init__", "dns.message.Message.use_tsig"), "R-14.10", f10.qualname, where(f10, x), "want_tsig_sign set by the constructor / use_tsig only",
+                          f"`{src(x)}` in {f10.name}: the signing request is changed outside the constructor and use_tsig() - e.g. cleared after the first render, so later renders of the same message carry a stale "
+                          "signature (BadSignature / BadTime at the receiver)", stmt="want-sign-writers")
+    rep.floor("R-14.10", n_w10, 2)
     mr14 = model.func("dns.message.make_response")
     st14 = [x for x in ast.walk(mr14.node) if isinstance(x, ast.Assign) and any(src(t_).endswith(".request_mac") for t_ in x.targets)]
     if len(st14) != 1:
@@ -370,6 +382,8 @@ def run(model, rep, tier):
 
 
 WITNESSES = [
+    {"id": "c14-render-clears-want-sign", "rule": "R-14.10", "file": "dns/message.py", "expect": "fires",
+     "old": "                if multi:\n                    self.tsig_ctx = ctx\n            r._write_tsig(self.tsig[0], self.tsig.name)", "new": "                if multi:\n                    self.tsig_ctx = ctx\n                self.want_tsig_sign = False\n            r._write_tsig(self.tsig[0], self.tsig.name)"},
     {"id": "c14-error-response-not-bound", "rule": "R-14.5", "file": "dns/message.py", "expect": "fires",
      "old": "        response.request_mac = query.mac\n    return response", "new": "        if not tsig_error:\n            response.request_mac = query.mac\n    return response"},
     {"id": "c14-add-tsig-template-from-argument", "rule": "R-14.9", "file": "dns/renderer.py", "expect": "fires",
